@@ -23,7 +23,7 @@ from ..oracle import crawl
 from ..run import pydoctor_run
 
 ID = "C10"
-RULE = ("template project with 28 canary slots (incl. docstring text that markup puts into an attribute value: image alt, link targets) x subsets of slots x canaries built from the pieces "
+RULE = ("template project with 30 canary slots (incl. docstring text that markup puts into an attribute value: image alt, link targets) x subsets of slots x canaries built from the pieces "
         "< > & \" ' &lt; &#0; &zq; ]]> <!-- --> <? <script> onload= and control characters (all positions) plus ` * _ | { } :: \\ "
         "(non-docstring positions), x 5 docformats x themes; and grammar-generated trees for well-formedness. Non-trivial when "
         ">=1 canary with >=1 metacharacter reached >=1 page; distinct by hash of (slots, canaries, docformat).")
@@ -54,10 +54,12 @@ STEM_SLOT = 'stem'
 # docstring text that markup itself places in an attribute value: the alternative text of a reST image, the target of a reST or
 # epytext hyperlink.  Quotes in it must not end the attribute.
 ATTR_SLOTS = ['rst_image_alt', 'rst_link_uri', 'epy_link_uri']
+# the label of an epytext link (to an object, to a URL): text, whatever it looks like
+LABEL_SLOTS = ['epy_xref_label', 'epy_url_label']
 ATTR_PIECES = ['"', "'", ' ', 'a', '=', 'onload', 'x', '&', ';', '&quot;', '%22', '/', '#', '?', '<', '>']
 ATTR_ATTACKS = ['x" onload="alert(1)', "x' onmouseover='alert(1)", 'x" onmouseover="alert(1)" y="', 'a"b', "a'b", '"', 'x" style="display:none', '"><script>alert(1)</script>',
                 '&quot; onload=&quot;x', 'x"onfocus=alert(1) autofocus="', '" a="1" b="2']
-ALL_SLOTS = DOC_SLOTS + CODE_SLOTS + OPT_SLOTS + [STEM_SLOT] + ATTR_SLOTS
+ALL_SLOTS = DOC_SLOTS + CODE_SLOTS + OPT_SLOTS + [STEM_SLOT] + ATTR_SLOTS + LABEL_SLOTS
 MARK_L, MARK_R = 'zq9', '9qz'
 # rendered through astor's pretty-printer, which lays long strings out over several lines at blanks: short payloads without blanks
 GENERIC_SLOTS = ('default_lambda', 'default_ifexp', 'default_cmp', 'default_comp', 'const_lambda')
@@ -120,7 +122,8 @@ def build_project(values: Dict[str, str], fmt: str) -> Tuple[Dict[str, str], Lis
     stem = v['stem']
     uri = v['rst_link_uri'].replace('\\', '\\\\').replace(' ', '\\ ')
     rst_doc = 'Module with reST markup.\n\n.. image:: pic.png\n   :alt: %s\n\nSee `the link text <http://example.org/%s>`_ for more.\n' % (v['rst_image_alt'], uri)
-    epy_doc = 'Module with epytext markup, see U{the link text<http://example.org/%s>} for more.\n' % v['epy_link_uri']
+    epy_doc = 'Module with epytext markup, see U{the link text<http://example.org/%s>} for more.\n\nAlso L{%s <pkg.mod.C>} and U{%s <http://example.org/y>}.\n' % (
+        v['epy_link_uri'], v['epy_xref_label'], v['epy_url_label'])
     files = {'pkg/attrs_rst.py': '__docformat__ = "restructuredtext"\n__doc__ = %s\n' % r(rst_doc), 'pkg/attrs_epy.py': '__docformat__ = "epytext"\n__doc__ = %s\n' % r(epy_doc)}
     files.update({'pkg/__init__.py': '"""pkg"""\n', 'pkg/mod.py': src, 'pkg/%s.py' % stem: '"""stem module"""\nclass InStem:\n    def f(self): pass\n'})
     args = ['--docformat=' + fmt, '--project-name=' + v['project_name'], '--project-url=' + v['project_url'], '--project-version=' + v['project_version'],
@@ -274,6 +277,8 @@ def st_case():
             elif s in ATTR_SLOTS:
                 bad = {'rst_image_alt': '', 'rst_link_uri': '<>', 'epy_link_uri': '<>'}[s]
                 canaries[s] = draw(payload([p for p in ATTR_PIECES if not any(ch in p for ch in bad)]))
+            elif s in LABEL_SLOTS:
+                canaries[s] = draw(payload([p for p in HTML_PIECES if '{' not in p and '}' not in p and p not in ('\x0c', '\x01', '\x1b')]))
             elif s in GENERIC_SLOTS:
                 canaries[s] = draw(st.lists(st.sampled_from([p for p in HTML_PIECES + MARKUP_PIECES if len(p) < 12 and not any(ch.isspace() or ch in LINE_BREAKERS for ch in p)]), min_size=1, max_size=3).map(''.join))
             elif s == STEM_SLOT:
@@ -321,7 +326,7 @@ def work(item: Dict[str, Any]) -> Acc:
         idx = 0
         fmts = ['epytext', 'restructuredtext', 'google', 'numpy', 'plaintext']
         for slot in ALL_SLOTS:
-            attacks = HTML_ATTACKS if slot in DOC_SLOTS or slot == STEM_SLOT else (ATTR_ATTACKS if slot in ATTR_SLOTS else HTML_ATTACKS + MARKUP_ATTACKS)
+            attacks = HTML_ATTACKS if slot in DOC_SLOTS or slot == STEM_SLOT or slot in LABEL_SLOTS else (ATTR_ATTACKS if slot in ATTR_SLOTS else HTML_ATTACKS + MARKUP_ATTACKS)
             for ai, payload in enumerate(attacks):
                 if slot in GENERIC_SLOTS and (len(payload) > 36 or any(ch.isspace() or ch in LINE_BREAKERS for ch in payload)):
                     continue
